@@ -248,7 +248,10 @@ def run_layout(repo, tier='quick', rule='E6p'):
                 problems.append(('rejected', f'the well-formed program "literals" (string literals / comments containing U+2028, form feed, U+0085, U+2029, VT, FS; non-ASCII names) is rejected: '
                                              f'{base[1]}{tuple(base[2][:2])!r}'[:300]))
                 continue
-            raise Unrecognised(rule, f'the canonical program "{pname}" is rejected: {base[1:]!r}'[:200], mod.rel)
+            # the canonical programs are well formed by the language definition (they are what sa/barefront.py parses): a parser error on one of them is a deviation
+            problems.append(('rejected', f'the well-formed program "{pname}" in its canonical layout (one statement per line, four blanks per level, LF) is rejected: '
+                                         f'{base[1]}{tuple(base[2][:2])!r}'[:300]))
+            continue
         for msg in absolute_problems(pname, base[1]):
             problems.append(('model', msg))
 
